@@ -148,6 +148,7 @@ pub fn oracle_pass(cand: Pool, workers: usize, recheck_every: usize) -> (Pool, O
         }
     }
     let mut pool = Pool::default();
+    let cand_groups = cand.sib_groups.clone();
     let mut expr_map: BTreeMap<u32, u32> = BTreeMap::new();
     for (i, e) in cand.entries.into_iter().enumerate() {
         match &first[i] {
@@ -177,6 +178,12 @@ pub fn oracle_pass(cand: Pool, workers: usize, recheck_every: usize) -> (Pool, O
                     st.dropped_examples.push(format!("{:?}: {} {:?}", other, e.call.ev.name(), e.call.expr));
                 }
             }
+        }
+    }
+    for g in cand_groups {
+        let mapped: Vec<u32> = g.iter().filter_map(|id| expr_map.get(id).copied()).collect();
+        if mapped.len() >= 2 {
+            pool.sib_groups.push(mapped);
         }
     }
     st.kept = pool.entries.len();
